@@ -21,10 +21,12 @@ import (
 	"fmt"
 	"math/bits"
 	"os"
+	"runtime"
 	"sort"
 	"strconv"
 	"strings"
 	"testing"
+	"time"
 
 	corev1 "k8s.io/api/core/v1"
 	"k8s.io/apimachinery/pkg/api/resource"
@@ -231,6 +233,9 @@ type c15World struct {
 	style                            c15Style
 	dumpCache                        string
 	lastReparentAttemptWithKids      bool
+	overlapStarted, overlapInside    int
+	overlapSerialised                int
+	overlapNotStarted                int
 }
 
 // c15Client is the "fake client whose pod list is part of the generated state": a client.Client that answers exactly the
@@ -242,13 +247,18 @@ type c15World struct {
 // interface, which rapid reports. (controller-runtime's fake client rebuilds a REST mapper on every Create: ~7 ms.)
 type c15Client struct {
 	client.Client
-	pods map[string]*corev1.Pod
+	pods   map[string]*corev1.Pod
+	onList func() // one-shot hook, fired at the start of the next List (used by the overlapping-request rule only)
 }
 
 func (c *c15Client) List(_ context.Context, list client.ObjectList, opts ...client.ListOption) error {
 	pl, ok := list.(*corev1.PodList)
 	if !ok {
 		return fmt.Errorf("c15Client: unsupported list type %T", list)
+	}
+	if h := c.onList; h != nil {
+		c.onList = nil
+		h()
 	}
 	lo := &client.ListOptions{}
 	lo.ApplyOptions(opts)
@@ -408,81 +418,75 @@ func c15WhyRejected(stage string, err error) string {
 	return "other"
 }
 
-// do sends one request through the real admission order, keeps the model in step and evaluates the oracle.
-// It returns whether the webhook accepted, and (sig,msg) != "" for an oracle failure.
-func (w *c15World) do(r c15Req) (accepted bool, sig, msg string) {
-	before := w.dumpCache // valid while nothing touched the record since it was taken (rejected requests leave it equal)
-	if before == "" {
-		before = c15Dump(w.qt)
-	}
-	w.dumpCache = ""
-	var err error
-	var stored *v1alpha1.ElasticQuota
-	var oldQ *c15Q
-	stage := "validate"
-	line := ""
+// c15Outcome is one request on its way through the webhook. prepare() reads the model on the calling goroutine and
+// returns a closure that only talks to the quotaTopology and fills in err/stage, so it may run on another goroutine.
+type c15Outcome struct {
+	r      c15Req
+	line   string
+	stored *v1alpha1.ElasticQuota // create/update: the object as it would be persisted
+	oldObj *v1alpha1.ElasticQuota // update/delete: the stored object sent as oldObject
+	err    error
+	stage  string
+}
+
+func (w *c15World) prepare(r c15Req) (*c15Outcome, func()) {
+	o := &c15Outcome{r: r, stage: "validate"}
 	switch r.Kind {
 	case "create":
-		stored = r.Obj.DeepCopy()
-		line = "create " + c15Render(r.Obj)
-		if err = w.qt.fillQuotaDefaultInformation(stored); err != nil {
-			stage = "fill"
-		} else {
-			err = w.qt.ValidAddQuota(stored)
+		o.stored = r.Obj.DeepCopy()
+		o.line = "create " + c15Render(r.Obj)
+		return o, func() {
+			if o.err = w.qt.fillQuotaDefaultInformation(o.stored); o.err != nil {
+				o.stage = "fill"
+			} else {
+				o.err = w.qt.ValidAddQuota(o.stored)
+			}
 		}
 	case "update":
-		oldQ = w.model[r.Name]
-		if oldQ == nil {
+		if w.model[r.Name] == nil {
 			panic("c15: generator bug: update of an object that is not stored")
 		}
-		stored = r.Obj.DeepCopy()
-		line = "update " + c15Render(r.Obj)
-		err = w.qt.ValidUpdateQuota(oldQ.obj.DeepCopy(), stored)
+		o.oldObj = w.model[r.Name].obj.DeepCopy()
+		o.stored = r.Obj.DeepCopy()
+		o.line = "update " + c15Render(r.Obj)
+		return o, func() { o.err = w.qt.ValidUpdateQuota(o.oldObj.DeepCopy(), o.stored) }
 	case "delete":
-		oldQ = w.model[r.Name]
-		if oldQ == nil {
+		if w.model[r.Name] == nil {
 			panic("c15: generator bug: delete of an object that is not stored")
 		}
-		line = "delete " + r.Name
-		err = w.qt.ValidDeleteQuota(oldQ.obj.DeepCopy())
-	default:
-		panic("c15: unknown request kind")
+		o.oldObj = w.model[r.Name].obj.DeepCopy()
+		o.line = "delete " + r.Name
+		return o, func() { o.err = w.qt.ValidDeleteQuota(o.oldObj.DeepCopy()) }
 	}
-	w.lastWasParentChange = false
-	w.lastReparentAttemptWithKids = false
-	if r.Kind == "update" && c15Derive(r.Obj).parent != oldQ.parent && len(w.children(r.Name)) > 0 {
-		w.lastReparentAttemptWithKids = true
+	panic("c15: unknown request kind")
+}
+
+// settle books the verdict and, for an accepted request, applies it to the model and evaluates the clauses that speak
+// about the request itself. It does not look at the webhook's record.
+func (w *c15World) settle(o *c15Outcome) (accepted bool, verdict, sig, msg string) {
+	r := o.r
+	var oldQ *c15Q
+	if o.oldObj != nil {
+		oldQ = c15Derive(o.oldObj)
 	}
-	if err != nil {
-		why := c15WhyRejected(stage, err)
-		w.hist = append(w.hist, line+" -> REJECTED("+why+")")
+	if o.err != nil {
+		why := c15WhyRejected(o.stage, o.err)
 		w.rejected[r.Kind]++
 		w.rejWhy[why]++
 		if r.Kind == "update" && c15Derive(r.Obj).parent != oldQ.parent {
 			w.reparentRejected++
 		}
-		if after := c15Dump(w.qt); after != before {
-			return false, "rejected:record-changed", fmt.Sprintf("request %q was rejected (%v) but the recorded topology changed\n--- before\n%s--- after\n%s", line, err, before, after)
-		}
-		w.dumpCache = before
-		return false, "", ""
+		return false, "REJECTED(" + why + ")", "", ""
 	}
 	w.accepted[r.Kind]++
-	echo := ""
-	if r.Echo {
-		echo = " +informer-event"
-	}
-	w.hist = append(w.hist, line+" -> accepted"+echo)
-
-	// ---- apply to the model (and evaluate the clauses that speak about the request itself)
 	switch r.Kind {
 	case "create":
 		if _, dup := w.model[r.Name]; dup {
-			return true, "create:existing-name-accepted", fmt.Sprintf("create of %s accepted although a quota of that name is stored", r.Name)
+			return true, "accepted", "create:existing-name-accepted", fmt.Sprintf("create of %s accepted although a quota of that name is stored", r.Name)
 		}
-		w.model[r.Name] = c15Derive(stored)
+		w.model[r.Name] = c15Derive(o.stored)
 	case "update":
-		nq := c15Derive(stored)
+		nq := c15Derive(o.stored)
 		if nq.parent != oldQ.parent {
 			w.lastWasParentChange = true
 			w.reparentAcc++
@@ -490,7 +494,7 @@ func (w *c15World) do(r c15Req) (accepted bool, sig, msg string) {
 				w.reparentWithKidsAcc++
 			}
 		}
-		if oldQ.obj.Annotations[c15ASharedW] != stored.Annotations[c15ASharedW] || oldQ.obj.Labels[c15LAllowLent] != stored.Labels[c15LAllowLent] {
+		if o.oldObj.Annotations[c15ASharedW] != o.stored.Annotations[c15ASharedW] || o.oldObj.Labels[c15LAllowLent] != o.stored.Labels[c15LAllowLent] {
 			w.staleSharedWeightNotAsserted++
 		}
 		w.model[r.Name] = nq
@@ -513,28 +517,160 @@ func (w *c15World) do(r c15Req) (accepted bool, sig, msg string) {
 		}
 		delete(w.model, r.Name)
 		if len(kids) > 0 {
-			return true, "delete:quota-with-children-deleted", fmt.Sprintf("delete of %s accepted although it has children %v", r.Name, kids)
+			return true, "accepted", "delete:quota-with-children-deleted", fmt.Sprintf("delete of %s accepted although it has children %v", r.Name, kids)
 		}
 		if npods > 0 {
-			return true, "delete:quota-with-pods-deleted", fmt.Sprintf("delete of %s accepted although %d pods carry its quota-name label", r.Name, npods)
+			return true, "accepted", "delete:quota-with-pods-deleted", fmt.Sprintf("delete of %s accepted although %d pods carry its quota-name label", r.Name, npods)
 		}
 		if nsPods > 0 {
 			w.deletedWithNamespacePods++ // pods bound only through their namespace: not asserted, see report
 		}
 	}
+	return true, "accepted", "", ""
+}
+
+func (w *c15World) takeDump() string {
+	before := w.dumpCache // valid while nothing touched the record since it was taken (rejected requests leave it equal)
+	if before == "" {
+		before = c15Dump(w.qt)
+	}
+	w.dumpCache = ""
+	return before
+}
+
+// do sends one request through the real admission order, keeps the model in step and evaluates the oracle.
+// It returns whether the webhook accepted, and (sig,msg) != "" for an oracle failure.
+func (w *c15World) do(r c15Req) (accepted bool, sig, msg string) {
+	before := w.takeDump()
+	o, run := w.prepare(r)
+	run()
+	w.lastWasParentChange = false
+	w.lastReparentAttemptWithKids = false
+	if r.Kind == "update" && c15Derive(r.Obj).parent != c15Derive(o.oldObj).parent && len(w.children(r.Name)) > 0 {
+		w.lastReparentAttemptWithKids = true
+	}
+	accepted, verdict, sig, msg := w.settle(o)
+	if !accepted {
+		w.hist = append(w.hist, o.line+" -> "+verdict)
+		if after := c15Dump(w.qt); after != before {
+			return false, "rejected:record-changed", fmt.Sprintf("request %q was rejected (%v) but the recorded topology changed\n--- before\n%s--- after\n%s", o.line, o.err, before, after)
+		}
+		w.dumpCache = before
+		return false, "", ""
+	}
+	echo := ""
+	if r.Echo {
+		echo = " +informer-event"
+	}
+	w.hist = append(w.hist, o.line+" -> "+verdict+echo)
+	if sig != "" {
+		return true, sig, msg
+	}
 	if r.Echo {
 		w.echoes++
 		switch r.Kind {
 		case "create":
-			w.qt.OnQuotaAdd(stored.DeepCopy())
+			w.qt.OnQuotaAdd(o.stored.DeepCopy())
 		case "update":
-			w.qt.OnQuotaUpdate(oldQ.obj.DeepCopy(), stored.DeepCopy())
+			w.qt.OnQuotaUpdate(o.oldObj.DeepCopy(), o.stored.DeepCopy())
 		case "delete":
-			w.qt.OnQuotaDelete(oldQ.obj.DeepCopy())
+			w.qt.OnQuotaDelete(o.oldObj.DeepCopy())
 		}
 	}
 	sig, msg = w.check()
 	return true, sig, msg
+}
+
+// doOverlap sends a DELETE and, while that delete is inside its pod List (the call it makes to the API client), a
+// second request from ANOTHER goroutine against the same quotaTopology — two admission requests in flight at once, as
+// the API server produces them. Which of the two completed first is decided without a clock:
+//   - if, at the moment the delete lists pods, somebody holds the topology lock (the delete itself), the nested request
+//     cannot complete before the delete returns: the two serialise as  delete ; nested;
+//   - if the lock is free at that moment, nothing the delete does can block the nested request, so the hook simply waits
+//     for it: nested ; delete.
+//
+// (The timers below are safety nets against a wedged goroutine; when one fires the requests are merely treated as
+// serialised, which is a legal history. The nested goroutine is always joined before the oracle runs.) Both verdicts are
+// applied to the model in completion order and the ordinary oracle decides.
+func (w *c15World) doOverlap(del, nested c15Req) (sig, msg string) {
+	before := w.takeDump()
+	od, runDel := w.prepare(del)
+	on, runNested := w.prepare(nested)
+	w.lastWasParentChange = false
+	w.lastReparentAttemptWithKids = false
+	started, inside := false, false
+	done := make(chan struct{})
+	w.cl.onList = func() {
+		started = true
+		free := w.qt.lock.TryLock()
+		if free {
+			w.qt.lock.Unlock()
+		}
+		go func() {
+			defer close(done)
+			runNested()
+		}()
+		if free {
+			select {
+			case <-done:
+				inside = true
+			case <-time.After(5 * time.Second):
+			}
+		} else {
+			for i := 0; i < 32; i++ {
+				runtime.Gosched() // let it queue up on the lock
+			}
+		}
+	}
+	runDel()
+	how := ""
+	switch {
+	case !started:
+		w.cl.onList = nil
+		runNested() // the delete was refused before it listed pods: plain sequence delete ; nested
+		w.overlapNotStarted++
+		how = "delete refused before listing pods, nested request sent afterwards"
+	default:
+		select {
+		case <-done:
+		case <-time.After(30 * time.Second):
+			return "overlap:nested-request-never-returned", fmt.Sprintf("request %q, started while %q listed pods, did not return within 30s", on.line, od.line)
+		}
+		w.overlapStarted++
+		if inside {
+			w.overlapInside++
+			how = "nested request COMPLETED INSIDE the delete's pod list (topology lock was free)"
+		} else {
+			w.overlapSerialised++
+			how = "nested request blocked on the topology lock until the delete returned"
+		}
+	}
+	order := []*c15Outcome{od, on}
+	if inside {
+		order = []*c15Outcome{on, od}
+	}
+	anyAccepted := false
+	var lines []string
+	for _, o := range order {
+		acc, verdict, s, m := w.settle(o)
+		anyAccepted = anyAccepted || acc
+		lines = append(lines, o.line+" -> "+verdict)
+		if s != "" && sig == "" {
+			sig, msg = s, m
+		}
+	}
+	w.hist = append(w.hist, "OVERLAP{ "+strings.Join(lines, " ; ")+" } "+how)
+	if sig != "" {
+		return sig, msg
+	}
+	if !anyAccepted {
+		if after := c15Dump(w.qt); after != before {
+			return "rejected:record-changed", fmt.Sprintf("both overlapping requests were rejected but the recorded topology changed\n--- before\n%s--- after\n%s", before, after)
+		}
+		w.dumpCache = before
+		return "", ""
+	}
+	return w.check()
 }
 
 func c15Keys(m map[string]int64) string { return strings.Join(vk.SortedKeys(m), ",") }
@@ -1244,6 +1380,10 @@ func (w *c15World) classes(c *vk.Case) {
 	c.ClassIf(w.reparentWithKidsAcc > 0, "accepted-parent-change-of-quota-with-children")
 	c.ClassIf(w.reparentRejected > 0, "rejected-parent-change")
 	c.ClassIf(w.echoes > 0, "informer-event-delivered")
+	c.ClassIf(w.overlapStarted > 0, "nested-request-during-delete-list")
+	c.ClassIf(w.overlapInside > 0, "nested-request-during-delete-list:completed-inside")
+	c.ClassIf(w.overlapSerialised > 0, "nested-request-during-delete-list:serialised")
+	c.ClassIf(w.overlapNotStarted > 0, "nested-request-not-started(delete refused before its pod list)")
 	c.ClassIf(w.deletedWithNamespacePods > 0, "deleted-quota-with-namespace-bound-pods(not asserted)")
 	c.ClassIf(w.staleSharedWeightNotAsserted > 0, "update-of-shared-weight/allow-lent(record not asserted)")
 	c.ClassIf(w.rootIndexStale > 0, "root-child-index-forgot-quotas-after-root-create(not asserted)")
@@ -1366,7 +1506,62 @@ func TestVerifC15History(t *testing.T) {
 			send(t, c15Req{Kind: "update", Name: name, Obj: o})
 		}
 		del := func(t *rapid.T) {
-			send(t, c15Req{Kind: "delete", Name: existing(t)})
+			if c15U(t, 3, "overlap") != 2 {
+				send(t, c15Req{Kind: "delete", Name: existing(t)})
+				return
+			}
+			// overlapping-request rule: a second request is in flight while the DELETE lists pods
+			var likely, user []string // likely = deletes that will get as far as the pod list and pass it
+			for _, n := range vk.SortedKeys(w.model) {
+				if n == c15Root || n == c15System || n == c15Default {
+					continue
+				}
+				user = append(user, n)
+				if w.model[n].isParent && len(w.children(n)) == 0 && w.labelPods(n) == 0 {
+					likely = append(likely, n)
+				}
+			}
+			if len(user) == 0 {
+				send(t, c15Req{Kind: "delete", Name: existing(t)})
+				return
+			}
+			target := ""
+			if len(likely) > 0 && c15U(t, 4, "overlapLikelyTarget") < 3 {
+				target = c15Pick(t, likely, "target")
+			} else {
+				target = c15Pick(t, user, "target")
+			}
+			var others []string
+			for _, n := range user {
+				if n != target {
+					others = append(others, n)
+				}
+			}
+			var nested c15Req
+			switch k := c15U(t, 8, "nestedKind"); {
+			case k <= 3 || len(others) == 0: // a child is created under the quota being deleted
+				o := c15GenCreate(t, w, target)
+				nested = c15Req{Kind: "create", Name: o.Name, Obj: o}
+			case k <= 5: // another quota is moved under the quota being deleted
+				x := c15Pick(t, others, "nestedTarget")
+				o := w.model[x].obj.DeepCopy()
+				if o.Labels == nil {
+					o.Labels = map[string]string{}
+				}
+				o.Labels[c15LParent] = target
+				nested = c15Req{Kind: "update", Name: x, Obj: o}
+			case k == 6: // any update of another quota
+				x := c15Pick(t, others, "nestedTarget")
+				nested = c15Req{Kind: "update", Name: x, Obj: c15GenUpdate(t, w, x)}
+			default: // any create
+				o := c15GenCreate(t, w, "")
+				nested = c15Req{Kind: "create", Name: o.Name, Obj: o}
+			}
+			if sig, msg := w.doOverlap(c15Req{Kind: "delete", Name: target}, nested); sig != "" {
+				if c.Violation(t, sig, "%s\nhistory:%s", msg, w.histStr()) {
+					dead = true
+				}
+			}
 		}
 		pod := func(t *rapid.T) {
 			pods := vk.SortedKeys(w.pods)
